@@ -34,6 +34,7 @@ import (
 )
 
 type Clause struct {
+	Own   bool // loop invariant used only when the function is verified on its own (not in inlined instances)
 	Label string
 	Src   string
 	Expr  ast.Expr
@@ -317,8 +318,9 @@ func (cs *Contracts) parseFile(path, pkg string) error {
 				}
 			}
 			cur.After = append(cur.After, ac)
-		case "invariant":
+		case "invariant", "owninvariant":
 			ls := cur.loop(p.loop)
+			cl.Own = p.kind == "owninvariant"
 			ls.Inv = append(ls.Inv, cl)
 		case "exit":
 			cur.loop(p.loop).Exit = append(cur.loop(p.loop).Exit, cl)
@@ -536,7 +538,7 @@ func (cs *Contracts) parseFile(path, pkg string) error {
 				body = fs[2]
 			}
 			switch kind {
-			case "invariant", "decreases", "exit":
+			case "invariant", "decreases", "exit", "owninvariant":
 				if err := startClause(kind, n, body, kind != "decreases"); err != nil {
 					return err
 				}
